@@ -266,7 +266,35 @@ func FuncName(fn *ssa.Function) string {
 
 // Func resolves "pkg.(*T).M", "pkg.T.M" or "pkg.F" (short package path; "tabula"
 // for the root package) to its SSA function, or nil.
+// AnchorHosts maps an unexported function to the functions of its package that called it on the
+// tree the rules were written against. Func and Decl fall back to the first host that still exists
+// when the function itself is gone (inlined into its caller and deleted).
+var AnchorHosts map[string][]string
+
 func (p *Prog) Func(name string) (fn *ssa.Function) {
+	if fn = p.funcExact(name); fn != nil {
+		return fn
+	}
+	for _, h := range AnchorHosts[name] {
+		if fn = p.funcExact(h); fn != nil {
+			return fn
+		}
+	}
+	// hosts of hosts (a chain of inlinings)
+	for _, h := range AnchorHosts[name] {
+		for _, h2 := range AnchorHosts[h] {
+			if fn = p.funcExact(h2); fn != nil {
+				return fn
+			}
+		}
+	}
+	return nil
+}
+
+// FuncExact resolves name without the host fallback.
+func (p *Prog) FuncExact(name string) *ssa.Function { return p.funcExact(name) }
+
+func (p *Prog) funcExact(name string) (fn *ssa.Function) {
 	defer func() {
 		if recover() != nil {
 			fn = nil // LookupMethod panics when the method does not exist (any more)
@@ -359,7 +387,15 @@ func (p *Prog) Decl(name string) *FuncDecl {
 			}
 		}
 	})
-	return p.decls[name]
+	if d := p.decls[name]; d != nil {
+		return d
+	}
+	for _, h := range AnchorHosts[name] {
+		if d := p.decls[h]; d != nil {
+			return d
+		}
+	}
+	return nil
 }
 
 // AllDecls returns every function declaration of the module keyed by name.
